@@ -60,18 +60,27 @@ def estimateBias : Nat := 999
 
 def decimalBits (n : Nat) : Nat := (n * 3322 + estimateBias) / 1000
 
-/-- `scan_msb`: the leading digit decides whether one bit can be saved -/
+/-- `scan_msb`: the leading digit decides whether one bit can be saved.  The first numeral may be
+preceded by a radix point (`.5`) or — since /repo commit a837792 — by a digit separator (`0'17`: the
+character after the octal prefix). -/
 def scanMsb (cs : List Char) (neg : Bool) (base stride offset maxBits numDigits numFrac : Nat) : Res Params :=
+  let c0 := cs.getD offset '\x00'
+  let c := cs.getD (offset + (if c0 == radixChar || c0 == separator then 1 else 0)) '\x00'
+  match digitPos base c with
+  | none => .unreachable "invalid digit"
+  | some d => .ok ⟨neg, base, stride, offset, maxBits - (if d * 2 < base then 1 else 0), numDigits, numFrac⟩
+
+/-- `scan_msb` as found (before /repo commit a837792): only the radix point is skipped, so the
+separator of `0'17` is taken for the leading digit -/
+def scanMsbOrig (cs : List Char) (neg : Bool) (base stride offset maxBits numDigits numFrac : Nat) : Res Params :=
   let c := cs.getD (offset + (if cs.getD offset '\x00' == radixChar then 1 else 0)) '\x00'
   match digitPos base c with
   | none => .unreachable "invalid digit"
   | some d => .ok ⟨neg, base, stride, offset, maxBits - (if d * 2 < base then 1 else 0), numDigits, numFrac⟩
 
-/-- `scan_base(str, is_negative, offset, length)`.  `[str, str+length)` is the range the code
-searches for the radix point and the separators (for a signed token it stops one character early,
-because `length` was already reduced by the sign while `str` still points at it). -/
-def scanBase (cs : List Char) (neg : Bool) (offset length : Nat) : Res Params :=
-  let body := cs.take length
+/-- `scan_base` after the searched range `body` was fixed; `msb` is `scan_msb` -/
+def scanBaseWith (msb : List Char → Bool → Nat → Nat → Nat → Nat → Nat → Nat → Res Params)
+    (cs body : List Char) (neg : Bool) (offset length : Nat) : Res Params :=
   let found := body.idxOf radixChar
   let hasRadix : Bool := found < body.length
   let post := body.drop (found + 1)
@@ -81,21 +90,39 @@ def scanBase (cs : List Char) (neg : Bool) (offset length : Nat) : Res Params :=
   let numFrac := post.length - postSeps
   let isDecimal := cs.getD offset '\x00' != '0' || hasRadix
   if isDecimal || offset + 1 ≥ numNonSep then
-    scanMsb cs neg 10 18 offset (decimalBits numNonSep) numNonSep numFrac
+    msb cs neg 10 18 offset (decimalBits numNonSep) numNonSep numFrac
   else
     let c1 := cs.getD (offset + 1) '\x00'
     if c1 == 'B' || c1 == 'b' then
-      scanMsb cs neg 2 63 (offset + 2) (numNonSep - 2) (numNonSep - 2) numFrac
+      msb cs neg 2 63 (offset + 2) (numNonSep - 2) (numNonSep - 2) numFrac
     else if c1 == 'X' || c1 == 'x' then
-      scanMsb cs neg 16 15 (offset + 2) ((numNonSep - 2) * 4) (numNonSep - 2) numFrac
+      msb cs neg 16 15 (offset + 2) ((numNonSep - 2) * 4) (numNonSep - 2) numFrac
     else
-      scanMsb cs neg 8 21 (offset + 1) ((numNonSep - 1) * 3) (numNonSep - 1) numFrac
+      msb cs neg 8 21 (offset + 1) ((numNonSep - 1) * 3) (numNonSep - 1) numFrac
+
+/-- `scan_base(str, is_negative, offset, length)`: `length` counts the characters after the sign,
+`str` still points at the sign, and `[str, str+offset+length)` — the whole token — is the range
+searched for the radix point and the separators (since /repo commit 678a22e). -/
+def scanBase (cs : List Char) (neg : Bool) (offset length : Nat) : Res Params :=
+  scanBaseWith scanMsb cs (cs.take (offset + length)) neg offset length
+
+/-- `scan_base` as found: the searched range was `[str, str+length)`, which for a signed token stops
+one character early -/
+def scanBaseOrig (cs : List Char) (neg : Bool) (offset length : Nat) : Res Params :=
+  scanBaseWith scanMsbOrig cs (cs.take length) neg offset length
 
 def scanString (cs : List Char) : Res Params :=
   match cs with
   | '+' :: _ => scanBase cs false 1 (cs.length - 1)
   | '-' :: _ => scanBase cs true 1 (cs.length - 1)
   | _ => scanBase cs false 0 cs.length
+
+/-- `scan_string` as found (both scanner defects) -/
+def scanStringOrig (cs : List Char) : Res Params :=
+  match cs with
+  | '+' :: _ => scanBaseOrig cs false 1 (cs.length - 1)
+  | '-' :: _ => scanBaseOrig cs true 1 (cs.length - 1)
+  | _ => scanBaseOrig cs false 0 cs.length
 
 /-! ## `parse_string` -/
 
@@ -187,6 +214,11 @@ def parse (S : Storage) (cs : List Char) : Res Int :=
   scanString cs >>= fun p =>
   parseString S (cs.drop p.firstNumeral) p.numDigits p.isNegative p.base p.stride
 
+/-- run-time `parse` as found -/
+def parseOrig (S : Storage) (cs : List Char) : Res Int :=
+  scanStringOrig cs >>= fun p =>
+  parseString S (cs.drop p.firstNumeral) p.numDigits p.isNegative p.base p.stride
+
 /-! ## result type of the compile-time parser -/
 
 /-- `set_digits_t<int, max(31, d)>`: the narrowest built-in signed type with at least `d` digits
@@ -257,15 +289,29 @@ def oob (sigT : IntTy) (outRadix : Nat) (n : Int) : Bool := n > sigT.max / (outR
 
 /-- the loop of the `InExponent < 0` branch with `Precise = true` (input > 0).
 State: significand, output exponent, `in_exponent`.  Fuel stands for the compiler's
-constant-evaluation limit: running out is `diverges`. -/
+constant-evaluation limit: running out is `diverges`.  Once `in_exponent` is 0 only factors of
+`OutRadix` are moved into the exponent (since /repo commit 9c119b4). -/
 def descaleNeg (sigT : IntTy) (outRadix inRadix : Nat) : Nat → Int → Int → Int → Res (Int × Int)
+  | 0, _, _, _ => .diverges
+  | fuel+1, sig, exp, ie =>
+    if ie ≠ 0 ∨ sig % (outRadix : Int) = 0 then
+      if ie = 0 then descaleNeg sigT outRadix inRadix fuel (sig / (outRadix : Int)) (exp + 1) ie
+      else if sig % (inRadix : Int) ≠ 0 then
+        if oob sigT outRadix sig then .unreachable "number cannot be represented in this form"
+        else descaleNeg sigT outRadix inRadix fuel (sig * outRadix) (exp - 1) ie
+      else descaleNeg sigT outRadix inRadix fuel (sig / (inRadix : Int)) exp (ie + 1)
+    else .ok (sig, exp)
+
+/-- the same loop as found: with `in_exponent = 0` and a significand still divisible by `OutRadix`
+it went on dividing by `InRadix` and counting `in_exponent` up, never to return to 0 -/
+def descaleNegOrig (sigT : IntTy) (outRadix inRadix : Nat) : Nat → Int → Int → Int → Res (Int × Int)
   | 0, _, _, _ => .diverges
   | fuel+1, sig, exp, ie =>
     if ie ≠ 0 ∨ sig % (outRadix : Int) = 0 then
       if sig % (inRadix : Int) ≠ 0 then
         if oob sigT outRadix sig then .unreachable "number cannot be represented in this form"
-        else descaleNeg sigT outRadix inRadix fuel (sig * outRadix) (exp - 1) ie
-      else descaleNeg sigT outRadix inRadix fuel (sig / (inRadix : Int)) exp (ie + 1)
+        else descaleNegOrig sigT outRadix inRadix fuel (sig * outRadix) (exp - 1) ie
+      else descaleNegOrig sigT outRadix inRadix fuel (sig / (inRadix : Int)) exp (ie + 1)
     else .ok (sig, exp)
 
 /-- the loop of the `InExponent ≥ 0` branch (input > 0) -/
@@ -284,6 +330,11 @@ def descaleFuel : Nat := 4000
 def descalePrecise (sigT : IntTy) (outRadix inRadix : Nat) (input inExp : Int) : Res (Int × Int) :=
   if input = 0 then .ok (0, 0)
   else if inExp < 0 then descaleNeg sigT outRadix inRadix descaleFuel input 0 inExp
+  else descalePos sigT outRadix inRadix descaleFuel input 0 inExp
+
+def descalePreciseOrig (sigT : IntTy) (outRadix inRadix : Nat) (input inExp : Int) : Res (Int × Int) :=
+  if input = 0 then .ok (0, 0)
+  else if inExp < 0 then descaleNegOrig sigT outRadix inRadix descaleFuel input 0 inExp
   else descalePos sigT outRadix inRadix descaleFuel input 0 inExp
 
 /-! ## the literal operators -/
@@ -322,6 +373,16 @@ def makeFromUdl (p : Parsed) (udlRadix : Nat) : Res Made :=
 def litCnl (cs : List Char) : Res Made := parseRealIntmax cs >>= fun p => makeFromUdl p p.radix
 def litCnl2 (cs : List Char) : Res Made := parseRealIntmax cs >>= fun p => makeFromUdl p 2
 
+/-- `make_from_udl` over the loop as found -/
+def makeFromUdlOrig (p : Parsed) (udlRadix : Nat) : Res Made :=
+  constEval (descalePreciseOrig i128 udlRadix p.radix p.significand p.exponent) >>= fun (sig, e) =>
+  let d := constantDigits sig
+  elasticRep d >>= fun rep =>
+  .ok ⟨.sc (.el d (.int i32)) e udlRadix, rep, sig⟩
+
+def litCnlOrig (cs : List Char) : Res Made := parseRealIntmax cs >>= fun p => makeFromUdlOrig p p.radix
+def litCnl2Orig (cs : List Char) : Res Made := parseRealIntmax cs >>= fun p => makeFromUdlOrig p 2
+
 /-! ## deduction from a constant or a value -/
 
 /-- `v >> tz` for the exact right shift used when a scaled type with exponent `tz` is initialised
@@ -355,14 +416,28 @@ range of `elastic_integer<d>`; out of range is reported by the (undefined-behavi
 def staticInit (d : Nat) (x : Int) : Res Int :=
   if x > 2 ^ d - 1 then .trap true else if x < -(2 ^ d - 1) then .trap false else .ok x
 
-/-- `_impl::make_static_integer(constant<v>)` -/
+/-- `_impl::make_static_integer(constant<v>)`: `digits_v<constant<v>>` digits, as
+`make_elastic_integer` (since /repo commit b8663e1) -/
 def makeStaticInteger (v : Int) : Res Made :=
-  let d := usedDigits v
+  let d := constantDigits v
   elasticRep d >>= fun rep =>
   staticInit d v >>= fun x => .ok ⟨staticIntegerTy d, rep, x⟩
 
 /-- `make_static_number(constant<v>)` -/
 def makeStaticNumber (v : Int) : Res Made :=
+  let tz := trailingBits v
+  let d := constantDigits v - tz
+  elasticRep d >>= fun rep =>
+  staticInit d (shiftOut v tz) >>= fun x => .ok ⟨.sc (staticIntegerTy d) tz 2, rep, x⟩
+
+/-- as found: the digits were `used_digits(v)`, the two's-complement count, one short of the
+symmetric range of `elastic_integer` for `v = -2^k` -/
+def makeStaticIntegerOrig (v : Int) : Res Made :=
+  let d := usedDigits v
+  elasticRep d >>= fun rep =>
+  staticInit d v >>= fun x => .ok ⟨staticIntegerTy d, rep, x⟩
+
+def makeStaticNumberOrig (v : Int) : Res Made :=
   let tz := trailingBits v
   let d := usedDigits v - tz
   elasticRep d >>= fun rep =>
